@@ -361,6 +361,9 @@ class Rng(random.Random):
 # script-level correspondence with shrinking
 
 
+UNSUPPORTED_SEEN = [0]
+
+
 def _first_diff(scripts, c_out, l_out):
     """return (script index, line index within script, c line, lean line) of first disagreement or None"""
     pos = 0
@@ -369,6 +372,10 @@ def _first_diff(scripts, c_out, l_out):
         for j in range(n):
             c = c_out[pos + j] if pos + j < len(c_out) else "<missing>"
             l = l_out[pos + j] if pos + j < len(l_out) else "<missing>"
+            if isinstance(l, str) and l.endswith(" UNSUPPORTED"):
+                # the model declares that the run entered behaviour it does not cover: rest of the script is not compared
+                UNSUPPORTED_SEEN[0] += 1
+                break
             if c != l:
                 return si, j, c, l
         pos += n
